@@ -216,6 +216,27 @@ def Qty.pow (env : ι → UnitInfo V) (q : Qty ι V) (p : Frac) : Except String 
   if p.den = 0 then throw "ZeroDivisionError"
   else pure (Qty.new env (q.mag.pow p.toRat) (q.units.scale p))
 
+/-- `str(base.dimensions.value(dtype=tuple))` : the *names* of the dimensions with a non-zero
+    exponent (the exponents themselves are not part of the key, as written). -/
+def dimKey (d : Dims) : List Bool := d.map (fun f => f.num != 0)
+
+/-- one pass of the loop of `Quantity.rebase`: `tbl` is the dict `dim-key ↦ [unitid, exp]`,
+    `factor` the accumulated conversion factor -/
+def rebaseStep (env : ι → UnitInfo V) (acc : List (List Bool × ι × Frac) × V) (p : ι × Frac) :
+    List (List Bool × ι × Frac) × V :=
+  let key := dimKey ((env p.1).dims.scale ⟨1, 1⟩)
+  match acc.1.find? (fun t => t.1 = key) with
+  | some t0 =>
+    (acc.1.map (fun t => if t.1 = key then (t.1, t.2.1, t.2.2.add p.2) else t),
+     acc.2 * rpow ((env p.1).factor / (env t0.2.1).factor) p.2.toRat)
+  | none => (acc.1 ++ [(key, p.1, p.2)], acc.2)
+
+/-- `Quantity.rebase()` : units whose dimension keys coincide are merged into the first of them;
+    `self.magnitude *= factor`; no folding step (the constructor is not called). -/
+def Qty.rebase (env : ι → UnitInfo V) (q : Qty ι V) : Qty ι V :=
+  let r := q.units.foldl (rebaseStep env) ([], 1)
+  ⟨q.mag.mul (Mag.exact r.2), BU.new (r.1.map (fun t => (t.2.1, t.2.2)))⟩
+
 /-! ### Specification: the value in base dimensions -/
 
 /-- the number the quantity stands for when every unit is replaced by its factor -/
